@@ -464,22 +464,76 @@ func ruleSeenOnce(c *Ctx) {
 				default:
 					out["outside"] = true
 				}
-				for _, base := range bases {
-					// the check object captured by a closure (or by the body of a range-over-func loop)
-					for range 6 {
-						fv, ok := base.(*ssa.FreeVar)
-						if !ok {
-							break
-						}
-						if base = freeVarBinding(fv); base == nil {
-							break
-						}
-					}
-					al, ok := base.(*ssa.Alloc)
-					if !ok {
+				// resolve every base to the allocations it can denote: through closures, through parameters of the
+				// region's functions (a method of the check object called from another method of it) and through a
+				// constructor that returns the freshly built object
+				var allocs []*ssa.Alloc
+				var resolve func(base ssa.Value, d int)
+				resolve = func(base ssa.Value, d int) {
+					if base == nil || d > 5 {
 						out["outside"] = true
-						continue
+						return
 					}
+					switch bb := stripConv(base).(type) {
+					case *ssa.FreeVar:
+						resolve(freeVarBinding(bb), d+1)
+					case *ssa.Alloc:
+						allocs = append(allocs, bb)
+					case *ssa.Parameter:
+						if bb.Parent() == root || !region[bb.Parent()] {
+							out["outside"] = true
+							return
+						}
+						for _, site := range cg.callersOf(bb.Parent()) {
+							for i, q := range bb.Parent().Params {
+								if q == bb && i < len(site.Common().Args) {
+									resolve(site.Common().Args[i], d+1)
+								}
+							}
+						}
+					case *ssa.Phi:
+						for _, e := range bb.Edges {
+							resolve(e, d+1)
+						}
+					case *ssa.UnOp:
+						// a local that holds the pointer to the check object
+						if al, ok := bb.X.(*ssa.Alloc); ok && bb.Op == token.MUL && al.Referrers() != nil {
+							for _, r := range *al.Referrers() {
+								if st, ok := r.(*ssa.Store); ok && st.Addr == ssa.Value(al) {
+									resolve(st.Val, d+1)
+								}
+							}
+							return
+						}
+						out["outside"] = true
+					case *ssa.Call:
+						cal := bb.Call.StaticCallee()
+						if cal == nil || cal.Blocks == nil || !inModule(cal) {
+							out["outside"] = true
+							return
+						}
+						found := false
+						for _, blk := range cal.Blocks {
+							if r, ok := lastInstr(blk).(*ssa.Return); ok {
+								for _, rv := range r.Results {
+									if al, ok := unspillResult(rv, blk).(*ssa.Alloc); ok {
+										allocs = append(allocs, al)
+										found = true
+									}
+								}
+							}
+						}
+						if !found {
+							out["outside"] = true
+						}
+					default:
+						out["outside"] = true
+					}
+				}
+				for _, base := range bases {
+					resolve(base, 0)
+				}
+				for _, al := range allocs {
 					stores := map[string][]ssa.Value{}
 					collectFieldStores(al, "", stores, 0)
 					if len(stores["."+fieldName]) == 0 {
@@ -610,6 +664,18 @@ func ruleSeenOnce(c *Ctx) {
 				if mm, ok := ins.(*ssa.MakeMap); ok {
 					if m, ok := mm.Type().Underlying().(*types.Map); ok && isSetElem(m.Elem()) && !inCycle(b) && (len(seenMakes) == 0 || seenMakes[fmt.Sprintf("make@%d", mm.Pos())]) {
 						okOnce = true
+					}
+				}
+				// made by a constructor of the check object that is called once per transaction
+				if call, ok := ins.(*ssa.Call); ok && !inCycle(b) {
+					if cal := call.Call.StaticCallee(); cal != nil && cal.Blocks != nil && inModule(cal) && !region[cal] {
+						for _, cb := range cal.Blocks {
+							for _, ci := range cb.Instrs {
+								if mm, ok := ci.(*ssa.MakeMap); ok && !inCycle(cb) && seenMakes[fmt.Sprintf("make@%d", mm.Pos())] {
+									okOnce = true
+								}
+							}
+						}
 					}
 				}
 			}
